@@ -30,6 +30,9 @@ def lane(args):
     try:
         for d in items:
             meta = json.load(open(os.path.join(d, "meta.json")))
+            if meta.get("superseded_by_repo_fix"):
+                out.append((d, "-", "superseded by a repo fix (no longer breaks the property): " + meta["superseded_by_repo_fix"][:60], 0.0))
+                continue
             chk = re.search(r"\./check (C\d\d)", meta["checked_with"]).group(1)
             sh(["git", "-C", wt, "checkout", "--", "."])
             a = sh(["git", "-C", wt, "apply", os.path.join(d, "patch.diff")])
@@ -61,7 +64,7 @@ def main():
         for r in ex.map(lane, chunks):
             res += r
     res.sort()
-    bad = [r for r in res if r[2] != "detected"]
+    bad = [r for r in res if r[2] != "detected" and not r[2].startswith("superseded")]
     if not only:
         with open(os.path.join(VERIF, "seeded", "REGRESSION.md"), "w") as fh:
             fh.write("# Seeded changes re-run against the current checks\n\n`tools/regress_seeded.py`: each stored patch applied to a scratch "
